@@ -35,8 +35,8 @@ package posting
 //
 //@ func Create
 //@   requires reg != nil && reg.accounts != nil && reg.commodities != nil
-//@   requires forall i int :: {bs[i]} 0 <= i && i < len(bs) ==> inText(bs[i].Quantity.Range)
-//@   modifies reg.accounts.index[*], reg.accounts.swaps[*], reg.commodities.index[*]
+//@   requires forall i int :: {bs[i]} 0 <= i && i < len(bs) ==> inText(bs[i].Quantity.Range) && inText(bs[i].Credit.Range) && inText(bs[i].Debit.Range)
+//@   modifies reg.accounts.index[*], reg.commodities.index[*]
 //@   ensures result.1 == nil ==> len(result.0) == 2 * len(bs) && paired(result.0) && fresh(result.0)
 //@   ensures result.1 == nil ==> (forall i int :: {result.0[i]} 0 <= i && i < len(result.0) ==> result.0[i] != nil && validAccount(result.0[i].Account) && result.0[i].Commodity != nil)
 //@   loop 1 invariant len(builder) == $i && fresh(builder) && 0 <= $i && $i <= len(bs)
